@@ -11,7 +11,7 @@ from scipy.spatial.transform import Rotation as R
 from . import gen
 from .core import HarnessError
 
-FORMS = ["rotation", "angax", "rotvec", "euler", "matrix", "mrp", "quat"]
+FORMS = ["rotation", "angax", "rotvec", "euler", "matrix", "mrp", "quat", "none"]
 EULER_SEQS = ["z", "x", "y", "xyz", "zyx", "ZYX", "XZ", "yx", "zxz"]
 AXES = ["x", "y", "z"]
 
@@ -89,6 +89,10 @@ def gen_move(rng, o, N, max_vec=4, wild=True, alias=False):
     scalar = rng.random() < 0.5
     n = rng.randint(1, max_vec)
     d = gen.vec3(rng) if scalar else gen.path(rng, n)
+    if alias and rng.random() < 0.06:
+        # a real but tiny displacement
+        tiny = lambda: rng.choice([1e-9, -1e-7, 0.0, 1e-12])  # noqa: E731
+        d = [tiny(), tiny(), 1e-8] if scalar else [[tiny(), 1e-9, tiny()] for _ in range(n)]
     if alias and rng.random() < 0.08:
         d = SELFPOS  # obj.move(obj.position): the input aliases the path that is being modified
     return {"op": "move", "o": o, "d": d, "start": gen_start(rng, N, wild)}
@@ -99,6 +103,10 @@ def gen_rotate(rng, o, N, forms=FORMS, max_vec=4, wild=True, alias=False):
     scalar = rng.random() < 0.5
     n = rng.randint(1, max_vec)
     op = {"op": "rotate", "o": o, "form": form, "start": gen_start(rng, N, wild)}
+    if form == "none":
+        # rotate(None): "None input is interpreted as unit rotation" - scalar input
+        op["anchor"] = gen_anchor(rng, 1, alias)
+        return op
     if form == "angax":
         op["angle"] = rng.randint(-24, 24) * 7.5 if scalar else [rng.randint(-24, 24) * 7.5 for _ in range(n)]
         op["axis"] = rng.choice(AXES) if rng.random() < 0.5 else gen.nz_vec3(rng)
@@ -139,6 +147,12 @@ def gen_setter(rng, o, N, max_len=5, alias=False):
     L = rng.choice([N, N, 1, rng.randint(1, max_len)])
     if alias and rng.random() < 0.06:
         return {"op": "set_position", "o": o, "v": SELFPOS}
+    if alias and rng.random() < 0.12:
+        # re-assign almost the current value: the current path changed by a tiny displacement / rotation
+        if rng.random() < 0.5:
+            return {"op": "set_position", "o": o, "v": "$near", "eps": [rng.choice([1e-6, -1e-7, 1e-9]), 0.0,
+                                                                      rng.choice([0.0, 1e-7])]}
+        return {"op": "set_orientation", "o": o, "r": "$near", "eps": [0.0, rng.choice([5e-6, 1e-7, -1e-8]), 0.0]}
     if rng.random() < 0.5:
         v = gen.path(rng, L)
         if L == 1 and rng.random() < 0.5:
@@ -161,9 +175,13 @@ def fit_start(rng, N, n, scalar):
     return s if rng.random() < 0.6 else s - N
 
 
-def gen_fit_op(rng, o, N, kinds=("move", "rotate", "setter"), forms=FORMS):
+def gen_fit_op(rng, o, N, kinds=("move", "rotate", "setter"), forms=FORMS, alias=False):
     """a length-preserving path op for an object whose path has length N"""
     k = rng.choice([x for x in kinds if x != "reset"] or ["move"])
+    if alias and rng.random() < 0.1:
+        if rng.random() < 0.5:
+            return {"op": "set_position", "o": o, "v": "$near", "eps": [rng.choice([1e-6, -1e-7, 1e-9]), 0.0, 0.0]}
+        return {"op": "set_orientation", "o": o, "r": "$near", "eps": [0.0, rng.choice([5e-6, 1e-7, -1e-8]), 0.0]}
     if k == "move":
         scalar = rng.random() < 0.5 or N == 0
         n = rng.randint(1, min(4, N))
@@ -199,6 +217,9 @@ def gen_path_op(rng, o, N, kinds=("move", "rotate", "setter", "reset"), forms=FO
         op = gen_setter(rng, o, N, alias=alias)
     else:
         return {"op": "reset_path", "o": o}
+    if alias and rng.random() < 0.06 and op["op"] == "rotate" and op.get("form") in ("rotation", "rotvec", "matrix",
+                                                                                      "mrp", "quat"):
+        op["tiny"] = rng.choice([1e-7, 1e-9])  # a real but tiny rotation (rotation vector scaled down)
     if alias and rng.random() < 0.3:
         op["as_array"] = True  # inputs as caller-owned float64 ndarrays, overwritten after the call
     if alias and isinstance(op.get("start"), int) and rng.random() < 0.2:
@@ -210,7 +231,7 @@ def op_nvec(op):
     for k in ("d", "rv", "angle", "v", "r"):
         if k in op and op[k] is not None:
             v = op[k]
-            if is_selfpos(v) or is_posof(v):
+            if is_selfpos(v) or is_posof(v) or isinstance(v, str):
                 return 0
             if op.get("form") == "euler":
                 return len(v) if isinstance(v, list) and isinstance(v[0], list) else 0
@@ -224,13 +245,15 @@ def op_nvec(op):
 
 # ----------------------------------------------------------------------------- rotations
 def _rv(op):
-    return np.array(op["rv"], dtype=float)
+    return np.array(op["rv"], dtype=float) * op.get("tiny", 1.0)
 
 
 def rotation_of(op):
     """The `equivalent rotation` of a rotate op as a scipy Rotation (used for rotate() itself and,
     through as_quat(), by the reference model).  SciPy is used only as a parametrisation converter."""
     form = op["form"]
+    if form == "none":
+        return R.identity()
     if form == "angax":
         ang = np.array(op["angle"], dtype=float)
         if op.get("degrees", True):
@@ -254,6 +277,8 @@ def call_args(op):
     """(method name, args, kwargs) for the real object"""
     form = op["form"]
     kw = {"anchor": op.get("anchor"), "start": op.get("start", "auto")}
+    if form == "none":
+        return "rotate", (None,), kw
     if form == "rotation":
         return "rotate", (rotation_of(op),), kw
     if form == "angax":
@@ -263,7 +288,7 @@ def call_args(op):
     rot = R.from_rotvec(_rv(op), degrees=True)
     if form == "rotvec":
         if op.get("degrees", True):
-            return "rotate_from_rotvec", (op["rv"],), dict(kw, degrees=True)
+            return "rotate_from_rotvec", (_rv(op).tolist(),), dict(kw, degrees=True)
         return "rotate_from_rotvec", ((_rv(op) / 180.0 * np.pi).tolist(),), dict(kw, degrees=False)
     if form == "matrix":
         return "rotate_from_matrix", (rot.as_matrix(),), kw
@@ -333,10 +358,17 @@ def _exec_path_op(obj, op):
                 v = op["v"]
                 if is_selfpos(v):
                     v = obj.position
+                elif isinstance(v, str) and v == "$near":
+                    v = obj._position + np.array(op["eps"], dtype=float)
                 obj.position = _bad(op, "v", v)
             elif k == "set_orientation":
                 b = op.get("bad")
-                obj.orientation = _badval(b["value"]) if b and b["field"] == "r" else orientation_value(op["r"])
+                if b and b["field"] == "r":
+                    obj.orientation = _badval(b["value"])
+                elif isinstance(op["r"], str) and op["r"] == "$near":
+                    obj.orientation = R.from_rotvec(op["eps"]) * obj._orientation
+                else:
+                    obj.orientation = orientation_value(op["r"])
             elif k == "reset_path":
                 obj.reset_path()
             elif k == "iadd_position":
@@ -471,10 +503,19 @@ def apply_to_model(m, op):
         pb, pe = m.rotate(q, anchor, op.get("start", "auto"))
         return ("pad", pb, pe)
     if k == "set_position":
+        if isinstance(op["v"], str) and op["v"] == "$near":
+            m.set_position((np.array(m.P) + np.array(op["eps"], dtype=float)).tolist())
+            return ("set", len(m))
         m.set_position(selfpos() if is_selfpos(op["v"]) else op["v"])
         return ("set", len(m))
     if k == "set_orientation":
         r = op["r"]
+        if isinstance(r, str) and r == "$near":
+            from .models.path_model import qmul
+
+            e = R.from_rotvec(op["eps"]).as_quat()
+            m.set_orientation([qmul(e, q) for q in m.Q])
+            return ("set", len(m))
         if r is None:
             # `None corresponds to a unit-rotation`: a single unit rotation; the position path is
             # end-sliced accordingly (the setter docstring's "for every path step" is not what the
